@@ -21,7 +21,7 @@ def one(d):
     return d, (fired, errs, detail), None
 
 rows = []
-with ThreadPoolExecutor(max_workers=8) as ex:
+with ThreadPoolExecutor(max_workers=int(os.environ.get("MATRIX_WORKERS", "14"))) as ex:
     for d, r, err in ex.map(one, seeds):
         sid = os.path.basename(d)
         meta = json.load(open(os.path.join(d, "meta.json")))
